@@ -121,6 +121,15 @@ Theorem C10_norm_idempotent_on_trees :
 Proof. intros t. split; [exact (norm_renorm t)|exact (src_toks_renorm t)]. Qed.
 Print Assumptions C10_norm_idempotent_on_trees.
 
+(* a stored integer numeral denotes the value it was printed from: re-reading
+   it with int() gives the same value (floats: exact for <= 15 significant
+   digits, checked by the O-literal correspondence only) *)
+Theorem C10_int_numeral_value_kept :
+  (forall z : Z, int_of_lit (py_int_repr z) = z)
+  /\ (forall sp z, leaf_lit_ok (canon_leaf (LInt sp z)) = true).
+Proof. split; [exact int_roundtrip|exact canon_int_lit_ok]. Qed.
+Print Assumptions C10_int_numeral_value_kept.
+
 (* MapfileTransformer.neg glues "-" to its operand: the tokens "-" "-" "[a]"
    are written "--[a]" (one bare word for the lexer; outside the token-level
    theorems above, found by the hunter) *)
